@@ -30,8 +30,10 @@ ASSUMPTIONS = [
     'remaining model refers to (a dangling target model set cannot be '
     'loaded by Django)',
 ]
-FLOORS = {'quick': {'nontrivial': 60, 'sig_walks': 300},
-          'thorough': {'nontrivial': 600, 'sig_walks': 3000}}
+FLOORS = {'quick': {'reused_label_cases': 20, 'referrer_on_migrations_cases': 2, 
+                    'nontrivial': 60, 'sig_walks': 300},
+          'thorough': {'reused_label_cases': 200, 'referrer_on_migrations_cases': 20, 
+                       'nontrivial': 600, 'sig_walks': 3000}}
 SIZES = {'quick': 500, 'thorough': 8000}
 
 KINDS = ('Integer', 'Char', 'ForeignKey', 'ForeignKey', 'OneToOne',
